@@ -247,6 +247,128 @@ theorem engine_tables :
     (∀ n c, wrapAxis0 n c = Int.tmod (n + c) n ∧ wrapAxis1 n c = Int.tmod (n + c) n ∧ wrapAxis2 n c = Int.tmod (n + c) n) :=
   ⟨by decide +kernel, by decide +kernel, by decide +kernel, by decide +kernel, by decide +kernel, fun n c => wrapAxis_eq n c⟩
 
+/-! ### completeness and multiplicities of the engine's table -/
+
+theorem coordsOf_eq (g : GridShape) (i : Int) : coordsOf g i = cellCoords g i := rfl
+
+private theorem axisAdj_iff_steps {per : Bool} {n a b : Int} (ha : 0 ≤ a ∧ a < n) (hb : 0 ≤ b ∧ b < n) :
+    axisAdj per n a b ↔ ((b = a + 1 ∧ b < n) ∨ (per = true ∧ a = n - 1 ∧ b = 0)) ∨
+      ((a = b + 1 ∧ 0 ≤ b) ∨ (per = true ∧ a = 0 ∧ b = n - 1)) := by
+  unfold axisAdj
+  cases per <;> simp <;> omega
+
+private theorem six_split (A0 A1 B0 B1 C0 C1 ex ey ez : Prop) :
+    (((A0 ∨ A1) ∧ ey ∧ ez) ∨ (ex ∧ (B0 ∨ B1) ∧ ez) ∨ (ex ∧ ey ∧ (C0 ∨ C1))) ↔
+    ((A0 ∧ ey ∧ ez) ∨ (A1 ∧ ey ∧ ez) ∨ (ex ∧ B0 ∧ ez) ∨ (ex ∧ B1 ∧ ez) ∨ (ex ∧ ey ∧ C0) ∨ (ex ∧ ey ∧ C1)) := by tauto
+
+/-- face adjacency = being behind one of the six faces -/
+theorem faceAdj_iff_reach (g : GridShape) {c1 c2 : Int × Int × Int}
+    (h1 : inGrid g c1.1 c1.2.1 c1.2.2) (h2 : inGrid g c2.1 c2.2.1 c2.2.2) :
+    faceAdj g c1 c2 ↔ ∃ n < 6, reach g n c1 c2 := by
+  rw [exists_lt_six]
+  simp only [faceAdj, axisAdj_iff_steps h1.1 h2.1, axisAdj_iff_steps h1.2.1 h2.2.1, axisAdj_iff_steps h1.2.2 h2.2.2]
+  show _ ↔ (((_ ∨ _) ∧ _ ∧ _) ∨ ((_ ∨ _) ∧ _ ∧ _) ∨ (_ ∧ (_ ∨ _) ∧ _) ∨ (_ ∧ (_ ∨ _) ∧ _) ∨ (_ ∧ _ ∧ (_ ∨ _)) ∨ (_ ∧ _ ∧ (_ ∨ _)))
+  exact six_split _ _ _ _ _ _ _ _ _
+
+/-- number of the six faces of `c1` behind which `c2` lies (Spec of the coupling multiplicity) -/
+def faceCount (g : GridShape) (c1 c2 : Int × Int × Int) : Nat :=
+  ((List.range 6).filter fun n => decide (reach g n c1 c2)).length
+
+theorem faceCount_eq_sum (g : GridShape) (c1 c2 : Int × Int × Int) :
+    faceCount g c1 c2 = (if reach g 0 c1 c2 then 1 else 0) + (if reach g 1 c1 c2 then 1 else 0) +
+      (if reach g 2 c1 c2 then 1 else 0) + (if reach g 3 c1 c2 then 1 else 0) +
+      (if reach g 4 c1 c2 then 1 else 0) + (if reach g 5 c1 c2 then 1 else 0) := by
+  have : List.range 6 = [0, 1, 2, 3, 4, 5] := by decide
+  simp only [faceCount, this, List.filter_cons, List.filter_nil, decide_eq_true_eq]
+  split_ifs <;> rfl
+
+/-- a cell lies behind its own face exactly on a periodic axis of length 1: then behind both faces of that axis -/
+theorem faceCount_self (g : GridShape) {x y z : Int} (hc : inGrid g x y z) :
+    faceCount g (x, y, z) (x, y, z) =
+      2 * ((if g.px = true ∧ g.w = 1 then 1 else 0) + (if g.py = true ∧ g.h = 1 then 1 else 0) +
+           (if g.pz = true ∧ g.d = 1 then 1 else 0)) := by
+  obtain ⟨⟨hx0, hx1⟩, ⟨hy0, hy1⟩, ⟨hz0, hz1⟩⟩ := hc
+  have r0 : reach g 0 (x, y, z) (x, y, z) ↔ (g.px = true ∧ g.w = 1) := by simp only [reach]; cases g.px <;> simp <;> omega
+  have r1 : reach g 1 (x, y, z) (x, y, z) ↔ (g.px = true ∧ g.w = 1) := by simp only [reach]; cases g.px <;> simp <;> omega
+  have r2 : reach g 2 (x, y, z) (x, y, z) ↔ (g.py = true ∧ g.h = 1) := by simp only [reach]; cases g.py <;> simp <;> omega
+  have r3 : reach g 3 (x, y, z) (x, y, z) ↔ (g.py = true ∧ g.h = 1) := by simp only [reach]; cases g.py <;> simp <;> omega
+  have r4 : reach g 4 (x, y, z) (x, y, z) ↔ (g.pz = true ∧ g.d = 1) := by simp only [reach]; cases g.pz <;> simp <;> omega
+  have r5 : reach g 5 (x, y, z) (x, y, z) ↔ (g.pz = true ∧ g.d = 1) := by simp only [reach]; cases g.pz <;> simp <;> omega
+  rw [faceCount_eq_sum]
+  simp only [r0, r1, r2, r3, r4, r5]
+  split_ifs <;> rfl
+
+instance (per : Bool) (n a b : Int) : Decidable (axisAdj per n a b) := by unfold axisAdj; infer_instance
+
+private theorem axis_count {per : Bool} {n a b : Int} (ha : 0 ≤ a ∧ a < n) (hb : 0 ≤ b ∧ b < n) (hne : a ≠ b) :
+    ((if (b = a + 1 ∧ b < n) ∨ (per = true ∧ a = n - 1 ∧ b = 0) then 1 else 0) +
+     (if (a = b + 1 ∧ 0 ≤ b) ∨ (per = true ∧ a = 0 ∧ b = n - 1) then 1 else 0) : Nat) =
+    if axisAdj per n a b then (if per = true ∧ n = 2 then 2 else 1) else 0 := by
+  unfold axisAdj
+  cases per <;> simp <;> split_ifs <;> omega
+
+/-- the two cells of a face pair on a periodic axis of length 2 touch through both faces of that axis -/
+def doubleAxis (g : GridShape) (c1 c2 : Int × Int × Int) : Prop :=
+  (g.px = true ∧ (g.w : Int) = 2 ∧ c1.1 ≠ c2.1) ∨ (g.py = true ∧ (g.h : Int) = 2 ∧ c1.2.1 ≠ c2.2.1) ∨ (g.pz = true ∧ (g.d : Int) = 2 ∧ c1.2.2 ≠ c2.2.2)
+
+instance (g : GridShape) (c1 c2 : Int × Int × Int) : Decidable (doubleAxis g c1 c2) := by unfold doubleAxis; infer_instance
+instance (g : GridShape) (c1 c2 : Int × Int × Int) : Decidable (faceAdj g c1 c2) := by unfold faceAdj; infer_instance
+
+theorem faceCount_distinct (g : GridShape) {c1 c2 : Int × Int × Int}
+    (h1 : inGrid g c1.1 c1.2.1 c1.2.2) (h2 : inGrid g c2.1 c2.2.1 c2.2.2) (hne : c1 ≠ c2) :
+    faceCount g c1 c2 = if faceAdj g c1 c2 then (if doubleAxis g c1 c2 then 2 else 1) else 0 := by
+  obtain ⟨x1, y1, z1⟩ := c1
+  obtain ⟨x2, y2, z2⟩ := c2
+  rw [faceCount_eq_sum]
+  simp only [reach, faceAdj, doubleAxis]
+  by_cases ex : x1 = x2 <;> by_cases ey : y1 = y2 <;> by_cases ez : z1 = z2
+  · exact absurd (by rw [ex, ey, ez]) hne
+  · -- z differs
+    have := axis_count (per := g.pz) h1.2.2 h2.2.2 ez
+    simp only [ex, ey, ez, true_and, and_true, ne_eq, not_true_eq_false, and_false, false_or, or_false] at this ⊢
+    simp only [↓reduceIte, Nat.zero_add, not_false_eq_true, and_true]
+    exact this
+  · have := axis_count (per := g.py) h1.2.1 h2.2.1 ey
+    simp only [ex, ey, ez, true_and, and_true, ne_eq, not_true_eq_false, and_false, false_and, false_or, or_false] at this ⊢
+    simp only [↓reduceIte, Nat.zero_add, Nat.add_zero, not_false_eq_true, and_true]
+    exact this
+  · simp [ey, ez]
+  · have := axis_count (per := g.px) h1.1 h2.1 ex
+    simp only [ex, ey, ez, true_and, and_true, ne_eq, not_true_eq_false, and_false, false_and, false_or, or_false] at this ⊢
+    simp only [↓reduceIte, Nat.zero_add, Nat.add_zero, not_false_eq_true, and_true]
+    exact this
+  · simp [ex, ez]
+  · simp [ex, ey]
+  · simp [ex, ey]
+
+/-- **engine_nbr_iff** — the engine's table lists exactly the face neighbours: some slot of cell `i` holds `j` iff `j` is
+face-adjacent to `i` (all cells `i`, `j`; for `i = j` both sides hold exactly on a periodic axis of length 1) -/
+theorem engine_nbr_iff {g : GridShape} (hv : g.valid = true) {i j : Nat} (hi : i < g.size) (hj : j < g.size) :
+    (∃ n < 6, engNbr? g i n = some j) ↔ faceAdj g (coordsOf g i) (coordsOf g j) := by
+  obtain ⟨ix, iy, iz, _⟩ := cellCoords_range hv hi
+  obtain ⟨jx, jy, jz, _⟩ := cellCoords_range hv hj
+  rw [coordsOf_eq, coordsOf_eq, faceAdj_iff_reach g ⟨ix, iy, iz⟩ ⟨jx, jy, jz⟩]
+  constructor
+  · rintro ⟨n, hn, h⟩; exact ⟨n, hn, (engNbr_iff_reach hv hi hj hn).1 h⟩
+  · rintro ⟨n, hn, h⟩; exact ⟨n, hn, (engNbr_iff_reach hv hi hj hn).2 h⟩
+
+/-- **multiplicity** — the number of slots of cell `i` that hold `j` is the number of faces of `i` behind which `j` lies;
+by `faceCount_self` that is 2 per periodic axis of length 1 for `j = i` (self entries), and by `faceCount_distinct` it is
+2 on a periodic axis of length 2 (both directions reach the same cell), 1 for any other face neighbour, 0 otherwise -/
+theorem engine_nbr_count {g : GridShape} (hv : g.valid = true) {i j : Nat} (hi : i < g.size) (hj : j < g.size) :
+    ((List.range 6).filter fun n => engNbr? g i n == some j).length = faceCount g (coordsOf g i) (coordsOf g j) := by
+  unfold faceCount
+  congr 1
+  apply List.filter_congr
+  intro n hn
+  have hn6 : n < 6 := List.mem_range.1 hn
+  rw [coordsOf_eq, coordsOf_eq]
+  have := engNbr_iff_reach hv hi hj hn6
+  by_cases h : engNbr? g i n = some j
+  · simp [h, this.1 h]
+  · have h' : ¬ reach g n (cellCoords g i) (cellCoords g j) := fun r => h (this.2 r)
+    simp [h, h']
+
 /-! ## `get_neighbors` and the kinetics enumeration: the generated rules are the face rules -/
 
 /-- the twelve `if` lines of `get_neighbors`: the two inner neighbours per axis, and the opposite end of a periodic axis -/
